@@ -14,14 +14,25 @@ let ids s = List.map (fun t -> int_n (int_of_string t)) (split ',' s)
 let show_ids l = if l = [] then "-" else String.concat "," (List.map (fun p -> string_of_int (n_int p)) l)
 let show_lists ls = if ls = [] then "-" else String.concat "/" (List.map show_ids ls)
 
-(* bins of one class: run-length encoded `theta.lo.count` *)
+(* bins of one class: run-length encoded `theta.lo.count`.  A bin (theta, rho) is only a name for the
+   model (it is parametric in `bins`): names are renumbered densely in order of first appearance, one
+   shared `positive` per bin, which keeps the keys of the finite map short. *)
+let bin_names : (int * int, positive) Hashtbl.t = Hashtbl.create 65536
+let bin_name (th : int) (rho : int) : positive =
+  let k = (th, rho) in
+  match Hashtbl.find_opt bin_names k with
+  | Some p -> p
+  | None ->
+      let p = int_pos (Hashtbl.length bin_names + 1) in
+      Hashtbl.add bin_names k p;
+      p
 let parse_bins (s : string) : positive list =
   List.concat_map
     (fun t ->
       match String.split_on_char '.' t with
       | [ th; lo; n ] ->
           let th = int_of_string th and lo = int_of_string lo and n = int_of_string n in
-          List.init n (fun k -> int_pos (((th lsl 32) lor (lo + k)) + 1))
+          List.init n (fun k -> bin_name th (lo + k))
       | _ -> failwith "bins")
     (split ',' s)
 
@@ -32,12 +43,26 @@ let near_fun (ncls : int) (s : string) : n -> n -> bool =
     (split ';' s);
   fun p q -> Bytes.get m ((n_int p * ncls) + n_int q) = '\001'
 
+(* oracle for sort_unstable_by: the order the implementation produced on this case (checked to be a
+   rearrangement of the argument), or its panic *)
+let sort_oracle (sorted : string) (oracle_ok : bool ref) (l : n list) : n list res =
+  if sorted = "panic" then Panic
+  else
+    let s = ids sorted in
+    let key l = List.sort compare (List.map n_int l) in
+    if key s = key l then Ok s
+    else begin
+      oracle_ok := false;
+      Panic
+    end
+
 let count_classes s = List.length (split ';' s)
 
 let handle (line : string) : string =
   match String.split_on_char ' ' line with
   | [ "c15"; classes; pts; bins; near ] -> (
       let ncls = count_classes classes in
+      Hashtbl.reset bin_names;
       let btab = Array.of_list (List.map parse_bins (split ';' bins)) in
       if Array.length btab <> ncls then "bad-case"
       else
@@ -56,20 +81,8 @@ let handle (line : string) : string =
       let ncls = count_classes classes in
       let fl = Array.of_list (split ',' flags) in
       let long_enough t = fl.(n_int t).[0] = '1' and close_beam t = fl.(n_int t).[1] = '1' in
-      (* oracle for sort_unstable_by: the order the implementation produced on this case (checked to be a
-         rearrangement of the argument), or its panic *)
       let oracle_ok = ref true in
-      let sort_f l =
-        if sorted = "panic" then Panic
-        else
-          let s = ids sorted in
-          let key l = List.sort compare (List.map n_int l) in
-          if key s = key l then Ok s
-          else begin
-            oracle_ok := false;
-            Panic
-          end
-      in
+      let sort_f = sort_oracle sorted oracle_ok in
       let zc = near_fun ncls zclose in
       let r = Array.of_list (List.map (fun h -> Int64.float_of_bits (Int64.of_string ("0x" ^ h))) (split ',' rbits)) in
       let sum l = List.fold_left (fun a t -> a +. r.(n_int t)) (-0.0) l in
@@ -80,6 +93,13 @@ let handle (line : string) : string =
       match find_vertices long_enough close_beam sort_f zc cmp_r (fun _ -> Ok ()) (ids pts) with
       | Ok (v, rem) ->
           Printf.sprintf "ok %s | %s" (match v with Some c -> show_ids c | None -> "none") (show_ids rem)
+      | Err _ -> "err"
+      | Panic -> if !oracle_ok then "panic" else "bad-oracle")
+  | [ "c15bc"; classes; pts; sorted; zclose ] -> (
+      let ncls = count_classes classes in
+      let oracle_ok = ref true in
+      match beamline_clusters (sort_oracle sorted oracle_ok) (near_fun ncls zclose) (ids pts) with
+      | Ok cl -> "ok " ^ show_lists cl
       | Err _ -> "err"
       | Panic -> if !oracle_ok then "panic" else "bad-oracle")
   | tag :: _ when String.length tag >= 3 && String.sub tag 0 3 = "rel" -> "holds"
